@@ -894,10 +894,11 @@ def i_XCHG(i, fmap):
     op2 = i.operands[1]
     tmp1 = fmap(op1)
     tmp2 = fmap(op2)
-    op1, tmp2 = _r32_zx64(op1, tmp2)
-    fmap[op1] = tmp2
+    # the r/m operand is stored first: its address may depend on op1
     op2, tmp1 = _r32_zx64(op2, tmp1)
     fmap[op2] = tmp1
+    op1, tmp2 = _r32_zx64(op1, tmp2)
+    fmap[op1] = tmp2
 
 
 def i_SHR(i, fmap):
